@@ -184,3 +184,19 @@ Example C13_nonvacuous_eof_mid_frame :
   inner_read net_eof (buf_capacity (r_frame r)) =
     (fst (inner_read net_eof (buf_capacity (r_frame r))), PReady []).
 Proof. vm_compute. repeat split; reflexivity. Qed.
+
+(* Non-vacuity of C13_good_frame_delivered / C13_bad_frame_rejected (toy AEAD, payload capacity 4):
+   the frame buffer holds the complete frame of the plaintext [7; 8] encrypted under nonce 0; a reader
+   that has accepted no frame so far decrypts it, a reader that has already accepted one (nonce 1: a
+   replayed or reordered frame) does not. *)
+Example C13_nonvacuous_good_and_bad_frame :
+  let fr := {| b_pre := []; b_data := wire [toy_enc 0 [7; 8]%Z]; b_post := repeat 0%Z 2 |} in
+  let c := firstn 18 (skipn LENF (buf_as_slice fr)) in
+  let r0 := {| r_payload := buf_new 4; r_frame := fr; r_got := [] |} in
+  let r1 := {| r_payload := buf_new 4; r_frame := fr; r_got := [((0, 0), [], [])]%Z |} in
+  (buf_len (r_payload r0) = 0 /\ frame_complete (r_frame r0) = Ok (Some 18) /\
+   Nat.leb (length c) MAXMSG = true /\ toy_dec (length (r_got r0)) c = Some [7; 8]%Z /\
+   Nat.leb (length [7; 8]%Z) (buf_size (r_payload r0)) = true) /\
+  (buf_len (r_payload r1) = 0 /\ frame_complete (r_frame r1) = Ok (Some 18) /\
+   toy_dec (length (r_got r1)) c = None).
+Proof. vm_compute. repeat split; reflexivity. Qed.
